@@ -127,3 +127,64 @@ func predecessorCase(k *engine.Case) {
 type fixedIntn int
 
 func (f fixedIntn) Intn(int) int { return int(f) }
+
+// streakCase: the same hand-over many times in a row. One consumer parks, one item of a fixed
+// flavour (normal, prior, control, or control and prior) is added, the consumer must return
+// with it - 10 to 45 rounds on one queue, so that whatever a queue keeps about its recent
+// history (turn counters, burst limits, remembered positions) gets its chance.
+func streakCase(k *engine.Case) {
+	r := k.R
+	qu := newQueue(r)
+	ctrl := qu.HasCtrl() && r.Intn(3) > 0
+	prior := r.Intn(3) == 0
+	rounds := 10 + r.Intn(36)
+	extra := r.Intn(3) // items added beyond the one the parked consumer takes, popped before the next round
+	k.Logf("queue=%s: %d rounds of {one consumer parks; %d item(s) added (ctrl=%v prior=%v); consumer returns; the rest is popped}", qu.Name(), rounds, 1+extra, ctrl, prior)
+	k.Nontrivial()
+	d := engine.NewDriver(Q, k)
+	defer qu.Close()
+	v := 100
+	for round := 0; round < rounds; round++ {
+		anyway := r.Intn(2) == 0
+		o := d.Spawn("Pop", func() any { x, ok := qu.Pop(anyway); return popRes{x, ok} })
+		if !d.Quiesce() {
+			return
+		}
+		if o.Done() {
+			k.Fail("pop-returned-on-empty", "%s round %d: Pop returned %+v from an empty open queue", qu.Name(), round, o.Result())
+			return
+		}
+		first := v
+		for i := 0; i <= extra; i++ {
+			if err := qu.Add(v, ctrl, prior); err != nil {
+				k.Fail("add-refused", "%s round %d: add on the open unbounded queue was refused: %v", qu.Name(), round, err)
+				return
+			}
+			v++
+		}
+		if !d.Quiesce() {
+			return
+		}
+		k.Evals(1)
+		if !o.Done() {
+			k.Fail("lost-wakeup", "%s: round %d of the same hand-over (ctrl=%v prior=%v): %d item(s) were added and the parked consumer sleeps beside them: %v", qu.Name(), round, ctrl, prior, 1+extra, Q.Describe())
+			return
+		}
+		if pr := o.Result().(popRes); !pr.ok || pr.v < first || pr.v >= v {
+			k.Fail("lost-wakeup", "%s round %d: the parked consumer returned %+v, items %d..%d had been added", qu.Name(), round, pr, first, v-1)
+			return
+		}
+		for i := 0; i < extra; i++ {
+			o2 := d.Spawn("Pop", func() any { x, ok := qu.Pop(anyway); return popRes{x, ok} })
+			if !d.Quiesce() {
+				return
+			}
+			if !o2.Done() {
+				k.Fail("lost-wakeup", "%s round %d: %d of the %d added items are still queued, yet Pop parks", qu.Name(), round, extra-i, 1+extra)
+				return
+			}
+		}
+	}
+	k.Count("streak_cases", 1)
+	k.Count("streak_rounds", int64(rounds))
+}
